@@ -120,6 +120,22 @@ static void gen_history(Rng &r, Plan &p, int mode, bool c04) {
     Fault f; f.actor = "qmail-queue"; f.call = r.pick(std::vector<CallId>{C_WRITE, C_FSYNC, C_LINK, C_OPEN, C_READ}); f.nth = (int)r.range(1, 12); f.kind = "error"; f.err = EIO;
     if (r.chance(0.25)) { f.call = C_ANY; f.nth = (int)r.range(1, 30); f.kind = "kill"; }   // the injecting child is killed (a death by signal is not success)
     p.faults.push_back(f);
+  } else if (mode == 9 && r.chance(0.2)) {
+    // a recipient list longer than the daemon's 128-byte read buffer, and the read that fails is the second or a later one of a pass:
+    // some recipients have been handed out, the rest are still in the file. Before that another message has come and gone, so every
+    // job slot, channel slot and buffer in the daemon has been used once already.
+    bool local = r.chance(0.5); std::string dom = local ? "@l.example" : "@r.example";
+    Json s0 = Json::obj(); s0.set("op", "script").set("rcpt", "first" + dom); { Json a = Json::arr(); a.push(Json::obj().set("v", r.chance(0.8) ? "K" : "D").set("text", "done").set("lat", 0)); s0.set("attempts", a); }
+    Json i0 = Json::obj(); { Json rc = Json::arr(); rc.push("first" + dom); i0.set("op", "inject").set("id", "m0").set("sender", "s0@x.example").set("rcpts", rc).set("body_len", 20).set("body_seed", 7); }
+    Json iw = Json::obj(); Json rcw = Json::arr(); int nw = (int)r.range(9, 16); std::vector<Json> scw;
+    for (int q = 0; q < nw; q++) { std::string a = "wide" + std::to_string(q) + dom; rcw.push(a); Json sc = Json::obj(); sc.set("op", "script").set("rcpt", a); Json at = Json::arr(); at.push(Json::obj().set("v", r.chance(0.85) ? "K" : "D").set("text", "fin").set("lat", (long long)r.below(3))); sc.set("attempts", at); scw.push_back(sc); }
+    if (r.chance(0.5)) { std::string a = std::string("other") + (local ? "@r.example" : "@l.example"); rcw.push(a); }
+    iw.set("op", "inject").set("id", "mw").set("sender", "sw@x.example").set("rcpts", rcw).set("body_len", 30).set("body_seed", 9);
+    Json ops2 = Json::arr(); bool placed = false;
+    for (auto &op : p.ops.a) { ops2.push(op); if (!placed && op.gets("op") == "boot") { ops2.push(s0); for (auto &sc : scw) ops2.push(sc); ops2.push(i0); ops2.push(Json::obj().set("op", "settle").set("max_s", 5)); ops2.push(iw); ops2.push(Json::obj().set("op", "settle").set("max_s", 5)); placed = true; } }
+    p.ops = ops2;
+    { Json &cf = p.knobs.at("conf"); cf.set("concurrencylocal", 20).set("concurrencyremote", 20); p.knobs.erase("spawn_limit_local"); p.knobs.erase("spawn_limit_remote"); can_drain = true; }
+    Fault f; f.actor = "qmail-send#1"; f.call = C_READ; f.path = local ? "/local/" : "/remote/"; f.nth = (int)r.range(2, 6); f.kind = "error"; f.err = r.pick(std::vector<int>{EIO, EIO, ENOMEM, EINTR, ESTALE}); p.faults.push_back(f);
   } else if (mode == 9) {  // one failing call of the daemon on a named kind of queue file, early in that file's use (rare paths: pqadd, getinfo, markdone, addbounce, injectbounce, job_close)
     Fault f; f.actor = "qmail-send"; f.path = r.pick(std::vector<std::string>{"/bounce/", "/info/", "/local/", "/remote/", "/mess/", "/todo/"});
     f.call = r.pick(std::vector<CallId>{C_STAT, C_OPEN, C_READ, C_WRITE, C_FSYNC, C_UNLINK, C_UTIMES});
@@ -380,12 +396,17 @@ static bool gen_c02(uint64_t seed, const std::string &tier, uint64_t i, Plan &p)
     Json inj; std::string desc; c01_input(p.seed, r.below(50) * 12 + (r.chance(0.6) ? 0 : r.below(12)), r.chance(0.7), inj, desc);
     inj.set("id", "m" + std::to_string(q + 1));
     // unique recipients and simple outcome scripts so deliveries make progress
+    // one message in six is itself a bounce (null sender) or a double bounce (sender #@[]) with a recipient that fails for good: the
+    // end of a bounce chain - a double bounce is sent, or the failure is discarded - is one more way for a message to leave the queue
+    bool chain_end = r.chance(0.17); std::string chain_sender = r.chance(0.6) ? "#@[]" : "";
     Json rc = Json::arr(); int nr = (int)r.range(1, 3); std::vector<std::string> rs;
     for (int x = 0; x < nr; x++) { std::string a = (r.chance(0.5) ? "l" : "r") + std::to_string(++rid); a += a[0] == 'l' ? "@l.example" : "@r.example"; rs.push_back(a); rc.push(a);
       Json sc = Json::obj(); sc.set("op", "script").set("rcpt", a); Json at = Json::arr(); int na = (int)r.below(3);
       for (int y = 0; y < na; y++) at.push(Json::obj().set("v", r.chance(0.6) ? "Z" : "D").set("text", "x").set("lat", (long long)r.below(30)));
+      if (chain_end && x == 0) { at = Json::arr(); if (r.chance(0.3)) at.push(Json::obj().set("v", "Z").set("text", "later").set("lat", (long long)r.below(5))); at.push(Json::obj().set("v", "D").set("text", "no such user").set("lat", (long long)r.below(5))); }
       sc.set("attempts", at); p.ops.push(sc); }
-    if (inj.gets("env_raw") == mk_env(inj.gets("sender"), {}) || r.chance(0.7)) { inj.set("rcpts", rc); inj.set("env_raw", mk_env(inj.gets("sender"), rs)); }
+    if (chain_end) { inj.set("sender", chain_sender); inj.set("rcpts", rc); inj.set("env_raw", mk_env(chain_sender, rs)); }
+    else if (inj.gets("env_raw") == mk_env(inj.gets("sender"), {}) || r.chance(0.7)) { inj.set("rcpts", rc); inj.set("env_raw", mk_env(inj.gets("sender"), rs)); }
     p.ops.push(inj); nap();
   }
   if (r.chance(0.25)) { nap(); p.ops.push(Json::obj().set("op", "second_send"));
